@@ -308,7 +308,7 @@ def solve (L : NLits α) (S : Setup α) (ode jac : Nat → α → Array α → A
       xNew := xend
       nEqual := 0
       luCurrent := false
-    if Num.eqb (x + L.tenth * Num.abs hSigned) x then
+    if Num.eqb (x + L.tenth * hSigned) x then
       status := .stepSizeTooSmall; starved := false; break
     cnt := { cnt with total := cnt.total + 1 }
     -- predictor, scale, psi
